@@ -39,7 +39,7 @@ REQUIRE = {
     "clause_top0_at_p0": 1200,
     "clause_top>0_at_p>0": 4000,
     "clause_monotone_pairs": 30000,
-    "clause_handed_width": 2000,
+    "clause_handed_width": 1500,
     "clause_handled_key_p_unchanged": 60,
     "clause_handled_mouse_p_unchanged": 60,
     "ops:key": 3000,
@@ -60,6 +60,9 @@ REQUIRE = {
     "lb_frames:focus-widget-object-at-several-positions": 250,
     "lb_frames:body-has-falsy-item_scrolled(p>0)": 400,
     "lb_frames:body-has-shared-widget-object": 500,
+    "lb_frames:relative-mode_body-has-zero-row-items": 150,
+    "frames_rendered_while_other_sizes_kept_alive": 250,
+    "ops:valign": 60,
     "clause_thumb_listbox_relative_mode": 1000,
     "clause_thumb_custom_walker_relative_mode": 200,
     "clause_thumb_custom_walker_row_mode": 200,
@@ -84,11 +87,13 @@ RULE = (
 ASSUMES = [
     "'full rendering' = the wrapped widget's own render() at the width it must be handed (flow: (cols,), fixed: ()), with the same focus flag; for ListBox the concatenation of the item renderings",
     "'content has more rows than the view' is judged at the width the wrapped widget is actually handed (bar drawn: view width - bar width, else view width); in the circular case where the content is taller than the view at full width but fits beside the bar (urwid.Text can have MORE rows at a wider width) no arrangement is self-consistent and a bar beside fitting content is accepted",
+    "with wrap option keep=per_size the harness keeps the last canvas of every (size, focus) alive (a widget shown in several places / frames kept by the program), so re-rendering an earlier size can be served from CanvasCache; the same clauses apply",
     "the harness keeps the last rendered frame alive (as a display module does), so CanvasCache hits are part of what is judged; spies are cacheable like ordinary widgets",
     "after an exception out of render() the history continues from a clean slate (held frame dropped, top widget invalidated), at most 3 exceptions per history",
     "when several offsets p match (repeated rows) the reported position only has to be one of them",
     "a view not wider than the bar (w <= bar width) cannot satisfy the statement at all; only 'renders a canvas of the view size without raising' is judged there",
     "'handled events are not also used for scrolling' is judged only for events a spy reported as handled while the wrapped content shows no cursor (Scrollable's follow-the-cursor adjustment after an Edit consumed a key is not counted as scrolling by that key)",
+    "'the wrapped widget receives view width - bar width' is judged on the frame displayed (columns must equal the oracle's rendering at that width, spies carry a right-edge marker); trial renders ScrollBar makes at another width and discards are allowed",
     "text cells are compared, attributes are not",
     "the bar width the oracle uses is the one the scrollbar_width property reports after construction / after the setter (documented clamp max(1, n)); thumb and trough characters have no public setter and are only chosen at construction",
     "ListBox bodies may hold the same widget object at several positions and falsy widgets (empty Pile 0 rows, empty Columns / GridFlow 1 blank row, a spy with __len__ == 0 that has rows); the harness never explicitly focuses a 0-row item (C07), and any exception whose first listbox.py frame is not one of the scrolling-protocol methods is out of scope (C07)",
@@ -194,6 +199,9 @@ class Session:
         u = self.u
         self.ckind = content[0]
         self.shared = {}
+        self.keep = wrap.get("keep", "last")
+        self.screen = {}
+        self.c("keep:" + self.keep)
         self.items = None
         self.lb = None
         self.scr = None
@@ -303,6 +311,9 @@ class Session:
                 t.set_rows(max(op[2], 1) if self.items is not None else op[2])
             else:
                 self.c("ops_noop")
+        elif k == "valign":
+            if self.kind == "LB":
+                self.lb.set_focus_valign(op[1])
         elif k == "setcols":
             if hasattr(self.cw, "set_cols"):
                 self.cw.set_cols(op[1])
@@ -354,7 +365,7 @@ class Session:
         self.c("ops_applied")
         self.c("ops:" + ("content" if k in ("settext", "setrows", "setcols", "add", "del") else k))
         mark = len(self.log)
-        if k in ("settext", "setrows", "setcols", "add", "del", "setfocus", "focus") or (k in ("key", "mouse") and self.has_edit()):
+        if k in ("settext", "setrows", "setcols", "add", "del", "setfocus", "focus", "valign") or (k in ("key", "mouse") and self.has_edit()):
             self.epoch += 1
         try:
             self.apply(op)
@@ -516,6 +527,12 @@ class Session:
             canv = self.top.render((w, h), focus)
             # like the display module, keep exactly the last frame alive so CanvasCache (weak refs) really serves hits
             self.held = canv
+            if self.keep == "per_size":
+                # a layout showing the widget in several places / a program keeping frames: the last canvas of EVERY
+                # (size, focus) stays alive, so a re-render at an earlier size can be served from the cache
+                self.screen[(w, h, focus)] = canv
+                if len(self.screen) > 1:
+                    self.c("frames_rendered_while_other_sizes_kept_alive")
             prev_canv, prev_tp = self.last_canv, self.last_tp
             self.last_canv, self.last_tp = canv, None
             shown = canvas_rows(canv)
@@ -526,6 +543,7 @@ class Session:
             # a real program would have died here; the history goes on from a clean slate (no frame kept from
             # before the failed render, nothing cached for the top widget)
             self.held = self.last_canv = None
+            self.screen.clear()
             self.top._invalidate()
             self.base._invalidate()
             return None
@@ -534,7 +552,7 @@ class Session:
         spy_renders = {}
         for e in self.log[mark:]:
             if e[0] == "render":
-                spy_renders[e[1]] = e[2]
+                spy_renders.setdefault(e[1], []).append(tuple(e[2]))
         if canv.cols() != w or canv.rows() != h or any(len(r) != w for r in shown):
             self.viol(f"C20|{self.topname}|render|canvas-size-differs-from-view", f"canvas {canv.cols()}x{canv.rows()} for view {w}x{h}")
             return None
@@ -589,7 +607,12 @@ class Session:
                 if A["P"] and A["total"] > h:
                     self.viol(f"C20|{self.topname}|bar-missing|content-taller-than-view|content={self.ckind}{self.lb_shape()}", f"total={A['total']} h={h} shown={shown!r}")
                 elif B["P"] and "?" not in barseq and B["total"] <= h:
-                    self.viol(f"C20|{self.topname}|bar-drawn|content-fits-view|content={self.ckind}", f"total={B['total']} h={h} shown={shown!r}")
+                    shape = ""
+                    if self.kind == "LB":
+                        shape = "|relative-mode" if self.lb.require_relative_scroll((w, h), focus) else "|row-mode"
+                        if any(x.rows((w - bw,), False) == 0 for x in self.lb.body):
+                            shape += "|body-has-zero-row-items"
+                    self.viol(f"C20|{self.topname}|bar-drawn|content-fits-view|content={self.ckind}{shape}", f"total={B['total']} h={h} shown={shown!r}")
                 elif "T" in barseq and "?" not in barseq:
                     self.viol(f"C20|{self.topname}|slice-beside-bar|{self.diagnose(region, w - bw)}|content={self.ckind}", f"shown={shown!r} full={B['full']!r}")
                 else:
@@ -615,6 +638,8 @@ class Session:
             self.c("shape:total==h+1")
 
         if self.kind == "LB":
+            if any(isinstance(x, self.u.Pile) and not x.contents for x in self.lb.body) and self.lb.require_relative_scroll((w, h), focus):
+                self.c("lb_frames:relative-mode_body-has-zero-row-items")
             if any(not x for x in self.lb.body):
                 self.c("lb_frames:body-has-falsy-item" + ("_scrolled(p>0)" if P[0] > 0 else "_at-top"))
             if len({id(x) for x in self.lb.body}) < len(self.lb.body):
@@ -644,15 +669,19 @@ class Session:
         p = reported if reported in P else P[0]
 
         # ---- clause: handed width
+        # (the displayed columns already matched the oracle's rendering at width cwid, edge marker included; the log adds:
+        # every spy that was rendered for this frame was rendered at the expected size.  ScrollBar may also make a trial
+        # render at another width and discard it, and the expected size may come from CanvasCache: a frame whose log
+        # lacks the expected size is therefore not judged by the log.)
         if spy_renders:
-            self.c("clause_handed_width")
-            for name, size in spy_renders.items():
+            for name, sizes in spy_renders.items():
                 want = () if name.startswith("fixedspy") else (cwid,)
-                if tuple(size) != want:
-                    self.viol(
-                        f"C20|{self.topname}|wrapped-widget-handed-wrong-size|bar={'drawn' if drawn else 'absent'}",
-                        f"{name} last rendered with {size}, expected {want} (view {w}x{h}, bar width {bw})",
-                    )
+                if want in sizes:
+                    self.c("clause_handed_width")
+                    if sizes[-1] != want:
+                        self.c("handed_width_trial_render_at_other_size_discarded")
+                else:
+                    self.c("handed_width_not_judged_by_log(expected size served from cache)")
 
         # ---- clauses on the thumb
         if drawn:
@@ -918,6 +947,41 @@ def core_cases(quick):
     # relative mode with a 0-row first item (empty Pile placeholder)
     items = [["emptypile"]] + [["rowspy", 10 * i, 1, bool(i % 2), [], []] for i in range(8)]
     out.append({"content": ["listbox", items, 1], "wrap": lbwrap, "size": [4, 2], "focus": True, "ops": [["sweep", "keys"], ["key", "home"], ["sweep", "wheel"]]})
+    # frames of earlier sizes kept alive (keep=per_size): a render at another size / focus state CLAMPS or RESETS the
+    # position, then the earlier size is rendered again: the rows shown there must start at get_scrollpos()
+    for kind in ("S", "SB"):
+        for content_kind in ("rowspy", "text", "widefixed"):
+            for T, p1, h1, h2 in ((20, 15, 5, 12), (20, 18, 2, 10), (9, 6, 3, 5), (9, 6, 3, 8), (12, 11, 1, 6), (8, 3, 3, 25), (8, 5, 2, 8), (6, 4, 2, 7)):
+                if content_kind == "rowspy":
+                    content = ["rowspy", 0, T, False, [], []]
+                elif content_kind == "text":
+                    content = ["text", [f"line{i:02d}" for i in range(T)], "clip", "left"]
+                else:  # fixed widget wider than the view: never takes Scrollable's fits-the-view shortcut
+                    content = ["fixedspy", 0, 14, T, False, [], []]
+                wrap = {"kind": kind, "side": "right", "bw": 1, "thumb": "#", "trough": ".", "keep": "per_size"}
+                ops = [["setpos", p1], ["resize", 10, h2], ["resize", 10, h1], ["setpos", p1], ["focus", False], ["resize", 10, h2], ["focus", True], ["resize", 10, h1], ["key", "up"], ["resize", 10, h2], ["resize", 10, h1]]
+                out.append({"content": content, "wrap": wrap, "size": [10, h1], "focus": True, "ops": ops})
+    # relative mode with runs of zero-row items near the end, focus on the last item, valign top / 'end' (the one path
+    # that counts zero-row widgets as visible: the thumb wants the whole view)
+    for h in (2, 3, 4, 5):
+        for zeros in (3 * h - 1, 3 * h + 2):
+            for head in (2, 3):
+                items = [["rowspy", 10 * i, 1, bool(i % 2), [], []] for i in range(head)] + [["emptypile"]] * zeros + [["rowspy", 400, 1, True, [], []]]
+                for first_ops in ([["setfocus", -1], ["valign", "top"]], [["key", "end"]], [["valign", "top"], ["key", "end"]], [["setfocus", -1], ["valign", "bottom"]]):
+                    ops = first_ops + [["key", "up"], ["key", "home"], ["setfocus", -1], ["valign", "top"], ["key", "page up"], ["key", "end"]]
+                    out.append({"content": ["listbox", items, 0], "wrap": dict(lbwrap, walker=("focus", "simple", "offset1")[h % 3]), "size": [6, h], "focus": bool(zeros % 2), "ops": ops})
+    # view not wider than the bar (each case named by fix 94e9ef7), then keys / wheel / wider again
+    for kind, content in (("SB", ["text", [f"l{i}" for i in range(8)], "any", "left"]), ("SB", ["rowspy", 0, 8, True, [], []]), ("LB", ["listbox", [["rowspy", 10 * i, 1, bool(i % 2), [], []] for i in range(8)], 0])):
+        for w, bw in ((1, 1), (2, 3), (2, 2), (3, 3), (1, 2)):
+            wrap = {"kind": kind, "side": "right", "bw": bw, "thumb": "#", "trough": ".", "walker": "focus"}
+            ops = [["key", "down"], ["mouse", "mouse press", 5, 0, 0], ["key", "page down"], ["resize", w + 3, 3], ["resize", w, 3], ["mouse", "mouse press", 4, 0, 1], ["key", "end"]]
+            out.append({"content": content, "wrap": wrap, "size": [w, 3], "focus": True, "ops": ops})
+    # a scroll key on content that fits, then the content grows (pending action of fix e22d711)
+    for kind in ("S", "SB"):
+        wrap = {"kind": kind, "side": "right", "bw": 1, "thumb": "#", "trough": "."}
+        for key in ("down", "page down", "end", "up"):
+            ops = [["key", key], ["setpos", -2], ["setrows", -1, 9], ["key", key], ["setrows", -1, 2], ["setpos", 5], ["setrows", -1, 9]]
+            out.append({"content": ["rowspy", 0, 3, False, [], []], "wrap": wrap, "size": [5, 4], "focus": True, "ops": ops})
     # urwid.Text with MORE rows at the wider width (4 rows at 10 columns, 3 rows at 9): the circular bar case
     text = ["text", ["A0 B1", "C2", "D3 E4 F5 G6 H7 I8", "J9", "K10 L11 M12 N13 O14 P15", "Q16R17r17q"], "space", "left"]
     wrap = {"kind": "SB", "side": "left", "bw": 1, "thumb": "#", "trough": "."}
